@@ -34,6 +34,18 @@ Proof.
 Qed.
 Print Assumptions C06_fresh_heap.
 
+(* a rule that takes new_constant() / new_world() as its witness therefore introduces an item that
+   occurs in no sentence node / modal node of the branch it is applied to (whatever the history);
+   that the witness rules do take it from there is observed on real tableaux by the correspondence *)
+Theorem C06_witness_fresh : forall maxi ops b, In b (run maxi ops) ->
+  ~ const_on (b_nextc b) b /\ ~ world_on (b_nextw b) b.
+Proof.
+  intros maxi ops b Hb. destruct (C06_fresh_heap maxi ops b Hb) as (Nc & Nw & Ic & Iw). split.
+  - intro H. apply Nc, Ic, H.
+  - intro H. apply Iw in H. apply Nw in H. exact (Nat.lt_irrefl _ H).
+Qed.
+Print Assumptions C06_witness_fresh.
+
 (* copies: the copy starts equal to its source; afterwards any sequence of
    operations that does not append to branch j leaves branch j exactly as it
    was (all four observables), whichever of the two j is *)
